@@ -15,9 +15,9 @@ PROP = Property(
                   "gen/regen.py constants (option bits, flags, defaults) compiled against the working tree",
                   "harness/config_drv.c, ocaml/config_drv.ml, gen/cfggen.py (correspondence check)",
                   "clang 14 ASan/UBSan/LSan",
-                  "hypothesis of C16_csv_fixpoint / C16_dup: ares_inet_pton(ares_inet_ntop(a)) = a and the shape of ntop output (sampled on every generated address)"],
+                  "premises of C16_csv_fixpoint / C16_dup per address: ares_inet_pton(ares_inet_ntop(a)) = a, the shape of ntop output, inet_pton(AF_INET6) accepts exactly IPv6 texts (sampled on every generated address)"],
     assumptions=["option handling, server list and text forms are hand-modelled (coq/Config/Options.v, Csv.v, Sysconfig.v); the tie to the C code is the correspondence run",
-                 "ARES_OPT_EVENT_THREAD, socket callbacks other than sock_state_cb, and ARES_OPT_TIMEOUT together with ARES_OPT_TIMEOUTMS are not generated",
+                 "ARES_OPT_EVENT_THREAD and socket callbacks other than sock_state_cb are not generated",
                  "memory allocation is assumed to succeed"],
     generated_fns=["src/lib/ares_update_servers.c:ares_sconfig_get_port", "src/lib/ares_update_servers.c:ares_server_use_uri"],
     rule="channels built from generated options / setters / system files; save->init, dup, csv round trip, reinit; non-trivial = every class except trivial-*; distinct by case text",
